@@ -16,8 +16,18 @@ quantile orientation that does not depend on the draw protocol: with
 num_mc = 4000 the bounds used by the model (and, if the private cache is
 readable, by the detector) must lie inside the DKW band of the *exact*
 distribution of the statistic (2^N outcomes, N <= 12).
+
+Round 3b, long epochs (``long`` / ``xlong`` / ``epochs`` families): an event
+may be a run-length block ``[pattern, n]``; histories are hundreds to tens of
+thousands of samples of one epoch (rates of 350/352 ... 35000/35002, whose
+last step is 1e-5 ... 1e-9 of the rate) followed by a window in which every
+choice of <= k deviations is explored, and histories with dozens of resets.
+Besides the public observables the statistic of every tracked rate is read
+from the detector's private table when that is possible (sharpening).
 """
+import copy
 import itertools
+from fractions import Fraction
 
 from menelaus.concept_drift import LinearFourRates
 
@@ -25,7 +35,7 @@ from mc import rng
 from mc.explorer import System, Violation, dev_split
 from mc.numeric import Decider, close, diff_keys, lockstep
 from mc.observe import stream_obs
-from models.lfr import RATES, LFRModel, exact_statistic_distribution, quantile_band
+from models.lfr import RATES, TAIL, LFRModel, exact_statistic_distribution, quantile_band, rate_of
 
 PROPERTY = "C06"
 # wall-clock safety net only; sized for a machine shared with other builders
@@ -64,6 +74,8 @@ class LFRSystem(System):
             "det": LinearFourRates(parallelize=False, **dict(p, rates_tracked=list(p["rates_tracked"]))),
             "model": LFRModel(**p),
         }
+        if cfg.get("long"):
+            st["model"].compact = True
         if cfg.get("shadow"):
             rest = [r for r in RATES if r not in p["rates_tracked"]]
             st["shadow"] = LFRModel(**dict(p, rates_tracked=rest)) if rest else None
@@ -72,55 +84,108 @@ class LFRSystem(System):
     def alphabet(self, cfg, state, pos):
         return [0, 1, 2, 3]
 
-    def observe(self, det):
+    def observe(self, det, compact=False):
         o = stream_obs(det)
         a = getattr(det, "all_drift_states", None)
         if isinstance(a, list):
-            o["all_states"] = list(a)
+            if compact:  # long epochs: length and tail per sample, complete lists at the end of every event
+                o["all_len"] = len(a)
+                o["all_tail"] = a[-TAIL:]
+            else:
+                o["all_states"] = list(a)
         return o
 
     def step(self, cfg, state, ev, pos, ctx):
+        """One event: a single confusion cell (int) or a run-length block
+        ``[pattern, n]`` = the cells of ``pattern`` repeated n times (long epochs).
+        Every sample of a block is compared exactly like a single event; the
+        observation returned for a block is that of its last sample plus a summary."""
+        if not isinstance(ev, list):
+            obs = self.sample(cfg, state, ev, pos, 0, ctx, inside_block=False)
+            obs["cell"] = CELLS[ev]
+            return obs
+        pattern, n = ev
+        flagged = {}
+        j = 0
+        obs = None
+        total = n * len(pattern)
+        for _ in range(n):
+            for cell in pattern:
+                j += 1
+                obs = self.sample(cfg, state, cell, pos, j, ctx, inside_block=j < total)
+                if obs["state"] is not None:
+                    flagged[obs["state"]] = flagged.get(obs["state"], 0) + 1
+        ctx.count("block_events")
+        ctx.count("block_samples", total)
+        obs["block"] = {"pattern": [CELLS[c] for c in pattern], "samples": total, "flagged": flagged}
+        return obs
+
+    def sample(self, cfg, state, ev, pos, j, ctx, inside_block):
         det = state["det"]
+        long_mode = bool(cfg.get("long"))
         yt, yp = ev >> 1, ev & 1
         prev_state = state["model"].state
         known = set(state["model"].cache) if cfg.get("band") else None
-        rng.seed_step(ctx.seed, cfg["id"], pos)
+        # seed schedule: (seed, cfg, event position) for single events -- unchanged since round 1 --
+        # and (seed, cfg, event position, sample number) inside a block
+        parts = (pos,) if j == 0 else (pos, j)
+        rng.seed_step(ctx.seed, cfg["id"], *parts)
         try:
             det.update(y_true=yt, y_pred=yp)
-            obs = self.observe(det)
+            obs = self.observe(det, long_mode)
         except Exception as e:  # the property allows no exception on valid labels
             raise Violation(
                 "LFR-exception",
                 "LinearFourRates.update(y_true=%d, y_pred=%d) raised %s: %s after %d samples"
-                % (yt, yp, type(e).__name__, e, pos),
+                % (yt, yp, type(e).__name__, e, state["model"].total),
                 expected="no exception",
                 observed=repr(e),
             )
 
         def call(m, D):
-            rng.seed_step(ctx.seed, cfg["id"], pos)
+            rng.seed_step(ctx.seed, cfg["id"], *parts)
             return m.step(ev, D)
 
-        def agree(e):
-            e = _pub(e)
-            if "all_states" not in obs:
-                e.pop("all_states")
-            return not diff_keys(e, obs)
+        def expected(e):
+            # all_drift_states is compared when the detector has it (complete, or length + tail in long mode)
+            return {k: v for k, v in _pub(e).items() if k in obs or k not in ("all_states", "all_len", "all_tail")}
 
-        model, exp, ok = lockstep(state["model"], call, agree, stats=ctx.stats)
+        def agree(e):
+            return not diff_keys(expected(e), obs)
+
+        if long_mode and not state["model"].next_is_tested():
+            # an untested sample takes no decision: nothing can be numerically undecidable, so the
+            # specification is advanced in place (no snapshot) and must agree as it stands
+            model = state["model"]
+            exp = call(model, Decider())
+            ok = agree(exp)
+        else:
+            model, exp, ok = lockstep(state["model"], call, agree, stats=ctx.stats)
+            if not ok and long_mode:
+                model, exp, ok = self.steer_all(state["model"], exp, call, agree, obs.get("state"), ctx)
         state["model"] = model
         if not ok:
-            e = _pub(exp)
-            if "all_states" not in obs:
-                e.pop("all_states")
+            e = expected(exp)
             bad = diff_keys(e, obs)
             raise Violation(
                 "LFR-spec",
                 "LinearFourRates disagrees with its executable specification on %s after %d samples "
-                "(cell %s, model detail %s)" % (bad, pos + 1, CELLS[ev], exp["_detail"]),
+                "(cell %s, model detail %s)" % (bad, exp["total"], CELLS[ev], exp["_detail"]),
                 expected=e,
                 observed=obs,
             )
+        if long_mode and not inside_block:
+            a = getattr(det, "all_drift_states", None)
+            if isinstance(a, list) and a != model.all_states:
+                i = next((i for i, (x, y) in enumerate(zip(a, model.all_states)) if x != y), min(len(a), len(model.all_states)))
+                raise Violation(
+                    "LFR-spec",
+                    "all_drift_states differs from the states reported update by update, first at index %d "
+                    "(after %d samples)" % (i, model.total),
+                    expected=model.all_states[max(0, i - 2): i + 3],
+                    observed=a[max(0, i - 2): i + 3],
+                )
+        self.statistic_check(det, model, ctx)
         d = model.diag
         st = obs["state"]
         decisive = d["near"] == 0
@@ -162,6 +227,8 @@ class LFRSystem(System):
         r = obs["recs"]
         if r[0] is not None and r[1] is not None and r[0] < r[1]:
             ctx.count("recs_with_warning_before_drift")
+        if long_mode:
+            self.long_counters(cfg, model, st, prev_state, ctx)
 
         sh = state.get("shadow")
         if sh is not None:
@@ -179,8 +246,120 @@ class LFRSystem(System):
 
         if cfg.get("band"):
             self.band_check(cfg, det, model, known, ctx, pos)
-        obs["cell"] = CELLS[ev]
         return obs
+
+    def steer_all(self, model, exp0, call, agree, target, ctx):
+        """Near-tie steering without the three-flip cap of mc.numeric.lockstep.
+
+        Deep inside an epoch with a very pure rate the statistic and all four bounds sit within a few
+        1e-16 of 1 (or of 0): R = 1 - eta^k/2 and the largest simulated value 1 - eta^N differ by less
+        than one unit in the last place, for every tracked rate at once, so up to 16 comparisons of one
+        step are numerically undecidable (relative margin <= 1e-9) -- more than lockstep's search tries.
+        Same rule, constructed instead of searched: only undecidable comparisons may be inverted, and
+        they are inverted exactly as far as needed to reproduce the state the detector reported; every
+        decidable comparison stays as computed and everything else (recs, counters, cache) must agree."""
+        if target not in (None, "warning", "drift"):
+            return model, exp0, False
+        d0 = Decider()
+        m0 = copy.deepcopy(model)
+        e0 = call(m0, d0)
+        near = set(d0.near)
+        flags = []
+        for r in m0.tracked:
+            if r in e0["_detail"]:
+                flags.extend(e0["_detail"][r]["flags"])
+        if not near or len(flags) != d0.i:
+            return model, exp0, False
+        warn_idx = [i for i in range(len(flags)) if i % 4 in (0, 1)]
+        det_idx = [i for i in range(len(flags)) if i % 4 in (2, 3)]
+        flips = set()
+        if target in (None, "warning"):
+            flips |= {i for i in det_idx if flags[i] and i in near}
+        if target is None:
+            flips |= {i for i in warn_idx if flags[i] and i in near}
+        if target == "warning" and not any(flags[i] for i in warn_idx):
+            cand = [i for i in warn_idx if i in near]
+            flips |= set(cand[:1])
+        if target == "drift" and not any(flags[i] for i in det_idx):
+            cand = [i for i in det_idx if i in near]
+            flips |= set(cand[:1])
+        if not flips:
+            return model, exp0, False
+        m1 = copy.deepcopy(model)
+        e1 = call(m1, Decider(flips=flips))
+        if agree(e1):
+            ctx.stats["near_tie_steered"] += 1
+            ctx.stats["near_tie_steered_beyond_3_flips"] += 1
+            return m1, e1, True
+        return model, exp0, False
+
+    def statistic_check(self, det, model, ctx):
+        """Sharpening (like the bounds read of the band family): when the detector's private table of
+        test statistics is readable, the entry of every *tracked* rate for the current sample must be
+        the exponentially weighted average the property states.  A correct float evaluation of
+        R <- eta*R + (1-eta)*hit carries a relative error of a few 1e-16 per update, damped by eta, i.e.
+        at most ~1e-16/(1-eta) in total: far inside the 1e-9 / 1e-12 tolerance for every decay factor
+        used here.  Unreadable (renamed / restructured) private state is skipped and counted."""
+        tab = getattr(det, "_r_stat", None)
+        row = tab.get(model.since) if isinstance(tab, dict) else None
+        if not isinstance(row, dict):
+            ctx.count("statistic_unreadable")
+            return
+        for r in model.tracked:
+            try:
+                v = float(row[r])
+            except (KeyError, TypeError, ValueError):
+                ctx.count("statistic_unreadable")
+                return
+            e = float(model.R[r])
+            if not close(v, e):
+                raise Violation(
+                    "LFR-statistic",
+                    "test statistic of %s after %d samples of the epoch (%d in total) is %r, the exponentially "
+                    "weighted average updated whenever the rate changed is %r (confusion counts [pred][true] %s)"
+                    % (r, model.since, model.total, v, e, model.C),
+                    expected=e,
+                    observed=v,
+                )
+        ctx.count("statistic_reads")
+
+    def long_counters(self, cfg, model, st, prev_state, ctx):
+        """Anti-vacuity for the long-epoch families: tested samples deep inside an epoch, at very pure rates."""
+        d = model.diag
+        if not d["eligible"]:
+            return
+        fam = cfg.get("family", "long")
+        ctx.count(fam + "_tested_steps")
+        if model.since >= 300:
+            ctx.count(fam + "_tested_since_300")
+        if model.since >= 1000:
+            ctx.count(fam + "_tested_since_1000")
+        if model.since >= 5000:
+            ctx.count(fam + "_tested_since_5000")
+        # a tracked rate whose last step was below 1e-5 relative, 1e-7 relative (the resolution of single
+        # precision) -- the regions where "changed" and "close" come apart
+        best = None
+        for r in model.tracked:
+            p, N = rate_of(model.C, r)
+            if N < 3 or p in (0, 1):
+                continue
+            m = min(p.numerator, p.denominator - p.numerator)
+            rel = Fraction(m, N * (N - 1)) / p  # size of the step that produced a rate like this one
+            best = rel if best is None else min(best, rel)
+        if best is not None:
+            if best < Fraction(1, 10 ** 5):
+                ctx.count(fam + "_tested_rate_step_below_1e-5")
+            if best < Fraction(1, 10 ** 7):
+                ctx.count(fam + "_tested_rate_step_below_1e-7")
+        if d["near"] == 0:
+            if st is None:
+                ctx.count(fam + "_decisive_none")
+            elif st == "warning":
+                ctx.count(fam + "_decisive_warning")
+            else:
+                ctx.count(fam + "_decisive_drift")
+            if st is None and prev_state == "warning":
+                ctx.mark(fam + "_recovered_from_warning")
 
     def band_check(self, cfg, det, model, known, ctx, pos):
         """Bounds simulated at this step vs. the exact distribution (N <= 12)."""
@@ -322,6 +501,133 @@ BAND_STREAMS = [[3, 0, 3, 2, 3, 1, 0, 3, 3, 2], [0, 3, 1, 0, 2, 0, 0, 1, 3, 0], 
 BAND_K = {"quick": 0, "thorough": 1}
 
 
+# ---------------------------------------------------------------------------------------------
+# Long-epoch families (round 3b).  A sample moves a rate by only minority/(N(N+1)); with a very pure
+# rate and a denominator N in the hundreds / thousands that step is 1e-5 .. 1e-9 of the rate, and the
+# statistic must *still* be updated ("iff the rate changed").  Such epochs exist only with a long
+# burn-in (or a large subsample), with decay factors close to 1 mattering most -- parameter regions
+# (burn_in in the hundreds like the library default of 50+, time_decay_factor 0.98/0.99) that 20-sample
+# histories cannot reach.  A history = run-length blocks (the untested prefix of the epoch, every sample
+# still compared) followed by a window of W single samples in which every choice of <= k deviations over
+# all four cells is explored (dev mode, per-position menus: no deviations inside the blocks).
+LONG_STREAMS = {
+    # name: (blocks seeding the minority cell, main pattern (M samples of it), the misses of a recovery history)
+    "tp": ([], [3], [2, 1]),            # TPR, PPV -> (N-1)/N; misses: FN (TPR), FP (PPV)
+    "tn": ([], [0], [1, 2]),            # TNR, NPV -> (N-1)/N; misses: FP (TNR), FN (NPV)
+    "alt": ([], [3, 0], [2, 1]),        # all four rates pure, N = M/2 each; FN hits TPR, NPV; FP hits TNR, PPV
+    "tp3": ([[[2], 2]], [3], [1, 2]),   # TPR with 3 in the minority cell, PPV with 1
+    "tn3": ([[[1], 2]], [0], [2, 1]),   # TNR with 3 in the minority cell, NPV with 1
+    "fn": ([], [2], [3, 0]),            # the other direction: TPR, NPV -> 1/N; "misses" = hits
+    "fp": ([], [1], [0, 3]),            # TNR, PPV -> 1/N
+    # an ordinary stationary stream (accuracy 13/16): long epoch, no rate is pure
+    "mix": ([], [3, 3, 0, 3, 0, 3, 2, 0, 3, 3, 0, 1, 3, 0, 3, 0], [2, 1]),
+}
+TP_RATES = ("tpr", "ppv")  # the rates a stream of true positives feeds
+TN_RATES = ("tnr", "npv")
+
+
+def _long(stream, M, eta, wl, dl, off, sub, rv, W, k, tracked=ALL, num_mc=NUM_MC, family="long", gap=None):
+    """gap = None: the window follows the M samples directly (first tests of a pure epoch).
+    gap = g: 'recovery' history -- after the M samples one miss per fed rate (two samples), g more samples
+    of the stream, then the window; the statistics are on their way back (1 - (1-eta)*eta^g) and must keep
+    moving with every sample.  With all four rates tracked a stream that feeds only two of them drifts at the
+    first tested sample whatever happens (the starved rates sit at 1/2 with N = 2, 3 against simulated values
+    near 0), and a fed rate that never saw a miss lies above every simulated value when eta^2 > 1/2; recovery
+    histories therefore track the fed rates and give each of them a miss."""
+    return {"stream": stream, "M": M, "eta": eta, "wl": wl, "dl": dl, "off": off, "sub": sub, "rv": rv,
+            "W": W, "k": k, "tracked": list(tracked), "num_mc": num_mc, "family": family, "gap": gap}
+
+
+# burn_in = (samples in the blocks) + off: the first `off` window samples are untested as well
+LONG_PLAN = {
+    "quick": [
+        # first tests of a pure epoch: below / around / above the sizes where the relative step of a
+        # rate reaches 1e-4, 1e-5, 1e-6
+        _long("tp", 120, 0.9, 0.2, 0.05, 0, 1, 4, 6, 1),
+        _long("tp", 350, 0.9, 0.2, 0.05, 0, 1, 4, 6, 1),
+        _long("tp", 350, 0.98, 0.05, 0.001, 0, 1, 4, 6, 1),
+        _long("tn", 350, 0.9, 0.4, 0.1, 2, 1, 1, 6, 1),
+        _long("alt", 700, 0.6, 0.2, 0.05, 0, 2, 4, 8, 1),
+        _long("tp3", 600, 0.9, 0.2, 0.05, 0, 1, 4, 6, 1),
+        _long("tn3", 1000, 0.7, 0.4, 0.1, 0, 1, 4, 8, 1),
+        _long("fn", 350, 0.9, 0.2, 0.05, 0, 1, 4, 6, 1),
+        _long("fp", 350, 0.6, 0.4, 0.1, 1, 1, 1, 6, 1),
+        _long("mix", 480, 0.9, 0.05, 0.05, 0, 1, 4, 8, 1),
+        _long("mix", 640, 0.98, 0.2, 0.05, 0, 2, 4, 8, 1),
+        # recovery histories: tested samples deep inside the epoch while the statistics climb back
+        _long("tp", 350, 0.9, 0.2, 0.05, 0, 1, 4, 10, 1, TP_RATES, gap=14),
+        _long("tp", 350, 0.98, 0.05, 0.001, 0, 1, 4, 14, 1, TP_RATES, gap=12),
+        _long("tp", 500, 0.98, 0.05, 0.001, 0, 1, 4, 16, 1, ("tpr",), num_mc=100, gap=8),
+        _long("tn", 400, 0.99, 0.1, 0.001, 0, 2, 4, 14, 1, ("npv", "tnr"), gap=20),
+        _long("alt", 800, 0.98, 0.05, 0.001, 1, 1, 4, 12, 1, gap=12),
+        _long("tp3", 600, 0.98, 0.1, 0.001, 0, 3, 1, 15, 1, ("ppv", "tpr"), gap=8),
+        _long("tn3", 1000, 0.7, 0.4, 0.1, 0, 1, 4, 8, 1, TN_RATES, gap=10),
+        _long("tp", 1000, 0.98, 0.05, 0.001, 0, 1, 4, 10, 1, TP_RATES, gap=30),
+        _long("fn", 350, 0.9, 0.2, 0.05, 0, 1, 4, 8, 1, ("tpr", "npv"), gap=4),
+        _long("fp", 400, 0.98, 0.05, 0.001, 0, 1, 4, 8, 1, ("ppv", "tnr"), gap=10),
+        # two deviations
+        _long("tp", 350, 0.98, 0.05, 0.001, 0, 1, 4, 7, 2, TP_RATES, gap=12),
+        _long("alt", 700, 0.9, 0.4, 0.1, 0, 1, 4, 6, 2, gap=28),
+        # denominators beyond the resolution of single precision (1/N^2 < 2^-24)
+        _long("tp", 6000, 0.98, 0.05, 0.001, 0, 1, 4, 5, 1, TP_RATES, family="xlong", gap=150),
+    ],
+}
+LONG_PLAN["thorough"] = LONG_PLAN["quick"] + [
+    _long("tn", 6000, 0.99, 0.05, 0.001, 0, 1, 4, 8, 1, TN_RATES, family="xlong", gap=300),
+    _long("alt", 7000, 0.9, 0.2, 0.05, 0, 1, 4, 6, 1, family="xlong", gap=60),
+    _long("tp3", 3500, 0.98, 0.05, 0.001, 0, 1, 4, 10, 2, TP_RATES, family="xlong", gap=100),
+    _long("fn", 16000, 0.999, 0.2, 0.05, 0, 1, 4, 6, 1, ("tpr", "npv"), family="xlong", gap=50),
+    _long("fp", 16000, 0.99, 0.05, 0.001, 0, 1, 4, 6, 1, family="xlong"),
+    # a relative step of 1e-9 needs N >= 31623 with one sample in the minority cell, 44722 with two
+    _long("tp", 50000, 0.98, 0.05, 0.001, 0, 1, 4, 4, 1, TP_RATES, family="xlong", gap=300),
+    _long("tn", 35000, 0.999, 0.2, 0.05, 0, 1, 4, 4, 1, ("tnr",), family="xlong"),
+]
+
+# many short epochs in one long history (the detector object reused across ~40 resets, a bounds cache of
+# hundreds of entries, indices far above samples_since_reset): a periodic stream as blocks, then a window
+EPOCH_PATTERN = [3, 0, 3, 0, 2, 1, 2, 1, 3, 3, 0, 1]
+EPOCH_PLAN = {
+    "quick": [
+        # (params, repetitions of the pattern, window length, k)
+        (_params(0.6, 0.2, 0.05, 2, 1, 4), 25, 8, 1),
+        (_params(0.7, 0.4, 0.1, 5, 2, 1), 25, 8, 1),
+        (_params(0.9, 0.2, 0.05, 10, 7, 4), 40, 10, 1),
+    ],
+}
+EPOCH_PLAN["thorough"] = EPOCH_PLAN["quick"] + [
+    (_params(0.6, 0.2, 0.05, 2, 1, 4), 80, 8, 2),
+    (_params(0.5, 0.4, 0.3, 0, 1, 4), 50, 8, 2),
+]
+
+
+def _long_task(spec):
+    seed_blocks, pattern, misses = LONG_STREAMS[spec["stream"]]
+    L = len(pattern)
+    blocks = [list(b) for b in seed_blocks] + [[pattern, spec["M"] // L]]
+    done = spec["M"] // L * L  # samples of the main pattern so far (the window continues its cycle)
+    if spec["gap"] is not None:
+        blocks.append([list(misses), 1])
+        g = spec["gap"]
+        if g:
+            assert spec["M"] % L == 0 and g % L == 0
+            blocks.append([pattern, g // L])
+            done += g
+    n_pre = sum(len(b[0]) * b[1] for b in blocks)
+    p = _params(spec["eta"], spec["wl"], spec["dl"], n_pre + spec["off"], spec["sub"], spec["rv"],
+                spec["tracked"], spec["num_mc"])
+    window = [pattern[(done + i) % L] for i in range(spec["W"])]
+    cid = _cid(p, "%s-%s-%d%s-" % (spec["family"], spec["stream"], spec["M"],
+                                  "" if spec["gap"] is None else "-g%d" % spec["gap"]))
+    return {
+        "system": "LFR", "mode": "dev",
+        "cfg": {"id": cid, "params": p, "long": True, "family": spec["family"]},
+        "default": blocks + window,
+        "menu": [[] for _ in blocks] + [[0, 1, 2, 3] for _ in window], "menu_per_pos": True,
+        "k": spec["k"], "validate_every": 211,
+        "label": "LFR|%s|%s|k%d" % (spec["family"], cid, spec["k"]),
+    }, n_pre
+
+
 def _dev_size(rem, k):
     """transitions of a dev tree with rem positions left and k deviations (3 alternatives each)."""
     import math
@@ -378,6 +684,40 @@ def tasks(tier, seed):
                 "label": "LFR|band|%s|%d" % (cid, si),
                 "cost": 6, "validate_every": 0,
             })
+
+    # long-epoch families: one task per (stream, M, parameters) for k = 1, split by first deviation for k = 2
+    for spec in LONG_PLAN[tier]:
+        base, n_pre = _long_task(spec)
+        nb = len(base["default"]) - spec["W"]
+        # relative cost: the blocks (cheap untested samples) + window transitions with simulations at N ~ M
+        per_step = 1.0 + spec["M"] / 250.0 * (spec["num_mc"] / 30.0)
+        if spec["k"] <= 1:
+            base["cost"] = (n_pre / 100.0 + _dev_size(spec["W"], spec["k"]) * per_step) / 60.0
+            out.append(base)
+        else:
+            for t in dev_split(base):
+                used = len(t.get("prefix", base["default"])) - nb
+                kk = t["k"] - (1 if "prefix" in t else 0)
+                t["cost"] = (n_pre / 100.0 + (_dev_size(spec["W"] - used, kk) + used) * per_step) / 60.0
+                out.append(t)
+    for p, reps, W, k in EPOCH_PLAN[tier]:
+        cid = _cid(p, "epochs%d-" % reps)
+        window = [EPOCH_PATTERN[i % len(EPOCH_PATTERN)] for i in range(W)]
+        base = {
+            "system": "LFR", "mode": "dev",
+            "cfg": {"id": cid, "params": p, "long": True, "family": "epochs"},
+            "default": [[EPOCH_PATTERN, reps]] + window,
+            "menu": [[]] + [[0, 1, 2, 3] for _ in window], "menu_per_pos": True,
+            "k": k, "validate_every": 211,
+            "label": "LFR|epochs|%s|k%d" % (cid, k),
+        }
+        if k <= 1:
+            base["cost"] = (reps * len(EPOCH_PATTERN) + _dev_size(W, k)) / 300.0
+            out.append(base)
+        else:
+            for t in dev_split(base):
+                t["cost"] = (reps * len(EPOCH_PATTERN) + _dev_size(W, k - 1)) / 300.0
+                out.append(t)
     return out
 
 
@@ -392,6 +732,12 @@ REQUIRED = [
     "recs_with_warning_before_drift",
     "exact_ties", "strict_tie_lb_warn", "strict_tie_ub_warn", "strict_tie_lb_detect", "strict_tie_ub_detect",
     "band_checks", "band_discriminates_orientation", "band_discriminates_levels",
+    # long-epoch families: all functions of the event sequences and parameters only (untested prefixes cannot
+    # drift), none depends on the draws
+    "block_events", "block_samples",
+    "long_tested_steps", "long_tested_since_300", "long_tested_since_1000", "long_tested_rate_step_below_1e-5",
+    "xlong_tested_since_5000", "xlong_tested_rate_step_below_1e-7",
+    "epochs_tested_steps",
 ]
 
 
@@ -399,7 +745,8 @@ def describe(tier):
     return {
         "rule": "every sequence over the four confusion cells of the stated depth per parameter set "
         "(prefix-shared DFS over the real detector, snapshots by deepcopy), plus every history with <= k "
-        "deviations from each default stream of length 20; a history is non-trivial when at least one of "
+        "deviations from each default stream of length 20, plus long-epoch histories (run-length blocks of hundreds "
+        "to tens of thousands of samples followed by a window with <= k deviations); a history is non-trivial when at least one of "
         "its updates reported warning or drift (or hit a bounds-cache entry made before a reset / for another "
         "exact rate); histories are distinct by construction (distinct event sequences or parameter sets)",
         "bounds": {
@@ -421,6 +768,23 @@ def describe(tier):
             },
             "band": {"num_mc": 4000, "N_max": 12, "dkw_eps": DKW_EPS, "k": BAND_K[tier],
                      "streams": len(BAND_STREAMS), "parameter_sets": len(BAND_CFGS)},
+            "long_epochs": {
+                "shape": "run-length blocks (M samples of a stream, untested: burn_in = samples in the blocks "
+                "+ off; every sample still compared) + for 'g<n>' recovery histories one miss per fed rate and n "
+                "more samples + a window of W single samples with every choice of <= k deviations over all four "
+                "cells; families 'long' (M 120..1000) and 'xlong' (M >= 3500)",
+                "streams": {k: {"seed_blocks": v[0], "pattern": [CELLS[c] for c in v[1]],
+                                "misses": [CELLS[c] for c in v[2]]} for k, v in LONG_STREAMS.items()},
+                "histories": ["%s: W=%d k<=%d" % (_long_task(sp)[0]["cfg"]["id"], sp["W"], sp["k"])
+                              for sp in LONG_PLAN[tier]],
+            },
+            "many_epochs": {
+                "shape": "the 12-cell pattern %s repeated as one block, then a window of W single samples with "
+                "<= k deviations; small burn_in, so the detector is reset again and again (up to ~35 resets, "
+                "bounds cache of up to ~250 entries in one history)" % [CELLS[c] for c in EPOCH_PATTERN],
+                "histories": ["%s: W=%d k<=%d" % (_cid(p, "epochs%d-" % reps), W, k)
+                              for p, reps, W, k in EPOCH_PLAN[tier]],
+            },
         },
         "explanation": "states = tree nodes (the bounds cache depends on the whole history, no transposition "
         "merging); traces_validated_against_impl = maximal executions on which the real detector and the "
@@ -437,6 +801,22 @@ def describe(tier):
             "ties (statistic exactly on a bound = not outside) are enforced strictly",
             "the cache key round(rate, round_val): on an exact rounding tie (e.g. 3/20 at one decimal) the "
             "model follows numpy's round of the float rate; elsewhere it is computed exactly",
+            "long-epoch families: the specification keeps rates as exact rationals at any N; its statistic is exact "
+            "up to a 2048-bit denominator and rounded to multiples of 2^-1024 afterwards (error < 2^-1024/(1-eta)); "
+            "simulated values for N > 64 are numpy.dot sums (relative error ~1e-16 log N) -- both far below the 1e-9 "
+            "margin of an undecidable comparison",
+            "deep inside a pure epoch the statistic and the bounds agree to a few 1e-16 for every tracked rate at "
+            "once (up to 16 undecidable comparisons in one step); in the long-epoch families every undecidable "
+            "comparison -- and no decidable one -- may follow the detector (near_tie_steered_beyond_3_flips), "
+            "instead of at most three as in mc.numeric.lockstep",
+            "seed schedule inside a block: numpy is seeded with (VERIF_SEED, configuration, event position, sample "
+            "number) before each update and again before the specification's step; single-sample events keep "
+            "(VERIF_SEED, configuration, event position)",
+            "sharpening, all families: when the detector's private per-sample table of statistics (_r_stat, the "
+            "state named in the property's anchors) is readable, the entry of every tracked rate must equal the "
+            "specified exponentially weighted average after every sample (rel 1e-9 / abs 1e-12; counter "
+            "statistic_reads, otherwise statistic_unreadable and nothing is demanded); decisions are compared "
+            "through the public attributes only",
             "parallelize=False only; statistical adequacy of num_mc draws is not decided (the band check only "
             "pins orientation and level of the percentiles for N <= 12)",
         ],
